@@ -55,3 +55,28 @@ def run(ctx):
         ctx.case(("sizes", cfg["name"], cfg["seed"], cfg["size"]), len(steps) >= 3,
                  {"algorithm": cfg["name"], "configured": {k: list(v) for k, v in exp.items()}, "observed_per_step": [e[3] for e in steps[:4]]}
                  if len(ctx.samples) < 5 and cfg["name"] in ("IBEA", "GA", "SMPSO") else None)
+    # ---- the survival functions the generational algorithms call, on merged populations with duplicated objective vectors
+    # (clones survive variation unchanged all the time): the next population has exactly min(N, |merged|) members
+    from platypus import core as C
+    import plat
+    for t in range(400 if ctx.quick() else 6000):
+        nobj = rng.choice([1, 2, 2, 3])
+        dirs = tuple(rng.random() < 0.3 for _ in range(nobj))
+        con = rng.random() < 0.3
+        p = plat.mk_problem(nobj, dirs, con)
+        base = [[float(rng.randrange(0, 4)) for _ in range(nobj)] for _ in range(rng.randrange(1, 6))]
+        merged = [plat.mk_sol(p, list(rng.choice(base)), float(rng.choice([0, 0, 1])) if con else 0.0) for _ in range(rng.randrange(1, 14))]
+        r = plat.call(C.nondominated_sort, list(merged))
+        if isinstance(r, str):
+            continue
+        for fn in (C.nondominated_truncate, C.nondominated_prune):
+            for N in sorted({0, 1, len(merged) // 2, len(merged) - 1, len(merged), len(merged) + 2} - {-1}):
+                out = plat.call(fn, list(merged), N)
+                inp = {"function": fn.__name__, "N": N, "maximise": list(dirs), "merged": [[list(map(float, s.objectives)), float(s.constraint_violation)] for s in merged]}
+                if isinstance(out, str):
+                    ctx.fail("survival-function-raises", inp, out, "a population", f"core.{fn.__name__}")
+                elif len(out) != min(N, len(merged)) or len({id(x) for x in out}) != len(out):
+                    ctx.fail("size-contract-broken", inp, len(out), f"== {min(N, len(merged))} distinct members", f"core.{fn.__name__}")
+        ctx.case(("survival-size", t), len({tuple(s.objectives) for s in merged}) < len(merged))
+    ctx.count("survival_function_size_cases", 400 if ctx.quick() else 6000)
+
